@@ -212,9 +212,13 @@ def run_search_check(pid, tier, obligations, prefixes, functions, bounds, outsid
     try:
         checks = 'omsnb'
         pool = concurrent.futures.ThreadPoolExecutor(A.NPROC)
-        for ob in obligations:
+        # one budget for the whole exploration of the tier: when a change makes the path count explode, every obligation runs into its own
+        # cap and the sum of the caps is not a usable running time; later obligations get what is left (at least a short slice each)
+        budget = float(os.environ.get('VERIF_BUDGET_S', 900 if tier == 'quick' else 3000))
+        for ob in sorted(obligations, key=lambda o: o.max_seconds):
             every = record_every or (1 if tier == 'thorough' else 1)
-            r = A.run_obligation(ba, ob.name, ob.spec(checks, records_for_validation, every), max_seconds=ob.max_seconds, pool=pool, dump_every=(97 if tier == 'quick' else 41))
+            left = budget - (time.time() - t0)
+            r = A.run_obligation(ba, ob.name, ob.spec(checks, records_for_validation, every), max_seconds=max(20.0, min(ob.max_seconds, left)), pool=pool, dump_every=(97 if tier == 'quick' else 41))
             r['ob'] = ob
             results.append(r)
         pool.shutdown()
